@@ -108,7 +108,12 @@ public:
                      // Set up an exit handler to call stop when the main application exits.
                      // always call stop on destruction to log everything. std::atexit seems to be
                      // working better with dll on windows compared to using ~LogManagerSingleton().
-                     std::atexit([]() { detail::BackendManager::instance().stop_backend_thread(); });
+                     std::atexit(
+                       []()
+                       {
+                         detail::BackendManager::instance().stop_backend_thread();
+                         detail::SignalHandlerContext::instance().backend_thread_id.store(0);
+                       });
                    });
   }
 
@@ -119,6 +124,10 @@ public:
   QUILL_ATTRIBUTE_COLD static void stop() noexcept
   {
     detail::BackendManager::instance().stop_backend_thread();
+
+    // the signal handler must not wait for a backend thread that is gone: a handled signal after stop()
+    // would otherwise log and flush_log() for ever
+    detail::SignalHandlerContext::instance().backend_thread_id.store(0);
   }
 
   /**
